@@ -112,6 +112,9 @@ type Server struct {
 	ActionHeaders bool
 	// ActionAuthorization: with ActionHeaders, every action also carries its own Authorization header.
 	ActionAuthorization bool
+	// ActionChunked: with ActionHeaders, upload actions ask for a chunked transfer; the value is the spelling
+	// of the header NAME to offer ("Transfer-Encoding", "transfer-encoding", "TRANSFER-ENCODING").
+	ActionChunked string
 	// ActionContentType: with ActionHeaders, upload actions also prescribe this Content-Type.
 	ActionContentType string
 	// LocksUnsupported: answer every locks endpoint with this status (404/501) when non-zero.
@@ -248,6 +251,10 @@ func (s *Server) handle(w http.ResponseWriter, r *http.Request) {
 	defer atomic.AddInt64(&s.inflight, -1)
 	body, _ := io.ReadAll(r.Body)
 	req := &Request{Arrive: s.now(), Method: r.Method, Path: r.URL.Path, RawQuery: r.URL.RawQuery, Header: r.Header.Clone(), Body: body, User: userOf(r), Kind: "other"}
+	if len(r.TransferEncoding) > 0 {
+		// net/http moves this header out of r.Header; keep it observable
+		req.Header.Set("Transfer-Encoding", strings.Join(r.TransferEncoding, ","))
+	}
 	if len(body) > 0 && strings.Contains(r.Header.Get("Content-Type"), "json") {
 		json.Unmarshal(body, &req.JSON)
 	}
@@ -401,6 +408,9 @@ func (s *Server) batch(req *Request, f *Fault, jsonAnswer func(int, any)) {
 				of.Header = map[string]string{"X-Verif-Action": "tok-" + tok}
 				if s.ActionAuthorization {
 					of.Header["Authorization"] = "Token act-" + tok
+				}
+				if s.ActionChunked != "" && kind == "upload" {
+					of.Header[s.ActionChunked] = "chunked"
 				}
 				if s.ActionContentType != "" && kind == "upload" {
 					of.Header["Content-Type"] = s.ActionContentType
